@@ -77,6 +77,10 @@ func (repo *PeerRepository) Load(ctx context.Context) error {
 	}
 
 	// Reset
+	// The count is only a hint from the file. Don't trust it for more than the data can hold.
+	if count < 0 || int(count) > buffer.Len() {
+		count = 0
+	}
 	repo.list = make([]*Peer, 0, count)
 
 	// Parse peers
@@ -229,7 +233,7 @@ func (repo *PeerRepository) Clear(ctx context.Context) error {
 	return repo.store.Remove(ctx, peersPath)
 }
 
-func readPeer(input io.Reader, version int32) (Peer, error) {
+func readPeer(input *bytes.Buffer, version int32) (Peer, error) {
 	result := Peer{}
 
 	// Read address
@@ -238,6 +242,9 @@ func readPeer(input io.Reader, version int32) (Peer, error) {
 		return result, err
 	}
 
+	if addressSize < 0 || int(addressSize) > input.Len() {
+		return result, errors.New("Invalid peer address size")
+	}
 	addressData := make([]byte, addressSize)
 	_, err := input.Read(addressData) // Read until string terminator
 	if err != nil {
